@@ -85,6 +85,7 @@ int list_an(int32 infile_id, int32 outfile_id, options_t *options);
 int
 list_main(const char *infname, const char *outfname, options_t *options)
 {
+    int           close_status = SUCCEED;               /* result of closing the output file */
     list_table_t *list_tbl = NULL;                      /* list of objects */
     dim_table_t  *td1      = NULL;                      /* dimensions */
     dim_table_t  *td2      = NULL;                      /* dimensions */
@@ -237,13 +238,20 @@ list_main(const char *infname, const char *outfname, options_t *options)
         printf("Failed to close file <%s>\n", infname);
 
     if (options->trip == 1) {
+        /* a failure to close the output means it is incomplete: report it */
         if (has_GRelems)
-            if (GRend(gr_out) == FAIL)
+            if (GRend(gr_out) == FAIL) {
                 printf("Failed to close GR interface <%s>\n", outfname);
-        if (SDend(sd_out) == FAIL)
+                close_status = FAIL;
+            }
+        if (SDend(sd_out) == FAIL) {
             printf("Failed to close file <%s>\n", outfname);
-        if (Hclose(outfile_id) == FAIL)
+            close_status = FAIL;
+        }
+        if (Hclose(outfile_id) == FAIL) {
             printf("Failed to close file <%s>\n", outfname);
+            close_status = FAIL;
+        }
     }
 
     /*-------------------------------------------------------------------------
@@ -255,7 +263,7 @@ list_main(const char *infname, const char *outfname, options_t *options)
     dim_table_free(td1);
     dim_table_free(td2);
 
-    return SUCCEED;
+    return close_status;
 
 out:
 
